@@ -35,6 +35,7 @@ def execute(conf: ExecutionConfiguration,
                                                      test_case.configuration_phase)
     if conf_phase_failure is not None:
         return new_configuration_phase_failure_from(conf_phase_failure)
+    verif_trace.emit('conf-done', lambda: dict(status=configuration_builder.test_case_status.name))
     if configuration_builder.test_case_status is TestCaseStatus.SKIP:
         return new_skipped()
     conf_phase_values = ConfPhaseValues(
